@@ -39,6 +39,8 @@ struct Profile
 const Profile *find_profile (const std::string &id) ;
 const std::vector<Profile> &all_profiles () ;
 
+extern bool g_thorough ;		// --tier thorough: generators may ask for deeper enumeration (recorded in the plan, so replay needs no flag)
+
 // helpers shared by profile implementations
 std::string make_sig (const std::string &prop, const std::string &clause, const Viol &v) ;
 std::string make_sig_raw (const std::string &prop, const std::string &clause, const std::string &fmt, const std::string &route, const std::string &fault, const std::string &disc) ;
